@@ -645,6 +645,15 @@ pub fn run(tier: Tier, replay: Option<String>) -> i32 {
                                 tier.pick(300_000, 3_000_000),
                                 move || scenario(&pr2),
                             ));
+                            // the same with the peers announcing each of the other legal socket types
+                            if policy == 0 && shape == 0 && peers >= 1 {
+                                for variant in 1..ty.peer_types().len() {
+                                    let pr2 = pr.clone();
+                                    let mut p = pj(&pr);
+                                    p["peer_variant"] = json!(variant);
+                                    jobs.push(e3::job(format!("C10/{}/{}p/w{}/early{}/peers-announce-{}", ty.name(), peers, wmode, early, ty.peer_types()[variant]), p, tier.pick(1, 2), tier.pick(100_000, 1_000_000), move || scenario(&pr2)));
+                                }
+                            }
                         }
                     }
                 }
